@@ -49,3 +49,23 @@ Proof. destruct h; intros H; try congruence; vm_compute; reflexivity. Qed.
 (* the halt words of the table are exactly the interpreter's halt codes *)
 Lemma halt_codes_table : forall h, h <> HaltOff -> In (halt_code h) halt_codes.
 Proof. destruct h; intros H; try congruence; vm_compute; tauto. Qed.
+
+(* the probe words are strictly between G38 and G39: none of the modal G codes *)
+Lemma probe_isq : forall p n, In n [0; 1; 90; 91; 93; 94; 95; 20; 21; 17; 18; 19; 92; 28]%Z ->
+  isq n (Some (snd (i_probe p))) = false.
+Proof.
+  intros p n H. cbn in H.
+  destruct p; repeat (destruct H as [<-|H]; [vm_compute; reflexivity|]); contradiction.
+Qed.
+Lemma probe_is_probe : forall p, is_probe_q (Some (snd (i_probe p))) = true.
+Proof. destruct p; vm_compute; reflexivity. Qed.
+
+(* the defaults of a fresh GState, as regenerated from the live package *)
+Lemma defaults_ok : state_defaults =
+  [("spin_mode", "OFF"); ("power_mode", "OFF"); ("distance_mode", "ABSOLUTE"); ("extrusion_mode", "ABSOLUTE");
+   ("coolant_mode", "OFF"); ("feed_mode", "UNITS_PER_MINUTE"); ("halt_mode", "OFF");
+   ("length_units", "MILLIMETERS"); ("time_units", "SECONDS"); ("temperature_units", "CELSIUS");
+   ("plane", "XY"); ("direction", "CLOCKWISE"); ("tool_swap_mode", "OFF")]
+  /\ default_tool_number = 0%Z /\ default_tool_power = 0%Q /\ default_feed_rate = 0%Q
+  /\ default_tool_active = false /\ default_coolant_active = false.
+Proof. vm_compute. repeat split. Qed.
